@@ -2,6 +2,8 @@ package main
 
 import (
 	"fmt"
+	"go/token"
+	"go/types"
 	"sort"
 	"strings"
 
@@ -239,6 +241,105 @@ func runLockRulesP(c *Ctx, prop string, fnPred func(*ssa.Function) bool, ownerPr
 			if bad == 0 {
 				c.Require(prop+".R4 field-guard", owner+"."+f, "-", fmt.Sprintf("all %d accesses hold %s.%s", len(as), owner, mf), true, "")
 			}
+		}
+		// R9: what was read from a guarded field under the lock is not carried, after the lock
+		// has been given up, into a call that takes the same object's lock again (two critical
+		// sections where the state read in the first may be gone in the second)
+		{
+			protected := map[string]bool{}
+			for _, f := range fields {
+				for _, a := range byField[f] {
+					if a.Write && !a.Fresh && a.Locked {
+						protected[f] = true
+					}
+				}
+			}
+			la9 := newLockAnalysis(p)
+			nRead := 0
+			for _, fn := range p.OwnFuncs {
+				if !IsProd(fn) || len(fn.Blocks) == 0 {
+					continue
+				}
+				lf := lockFlow(fn, entry[fn])
+				for _, b := range fn.Blocks {
+					for _, in := range b.Instrs {
+						fa, ok := in.(*ssa.FieldAddr)
+						if !ok {
+							continue
+						}
+						o, st := ownerOfFieldBase(fa.X.Type())
+						if o != owner || st == nil || !protected[fieldNameOf(st.Field(fa.Field))] {
+							continue
+						}
+						base := stripFree(lf.tb.of(fa.X, 0)).String()
+						wantPath := base + "." + mf
+						heldAt := func(i ssa.Instruction) bool {
+							for _, h := range lf.Must[i] {
+								if h.Path == wantPath {
+									return true
+								}
+							}
+							return false
+						}
+						if !heldAt(in) {
+							continue
+						}
+						// values computed from the loaded field (no further memory reads)
+						derived := map[ssa.Value]bool{}
+						var grow func(v ssa.Value, d int)
+						grow = func(v ssa.Value, d int) {
+							if derived[v] || d > 6 {
+								return
+							}
+							derived[v] = true
+							if refs := v.Referrers(); refs != nil {
+								for _, r := range *refs {
+									switch x := r.(type) {
+									case *ssa.Convert, *ssa.ChangeType, *ssa.BinOp, *ssa.Phi, *ssa.MakeInterface:
+										grow(x.(ssa.Value), d+1)
+									}
+								}
+							}
+						}
+						for _, r := range *fa.Referrers() {
+							if ld, ok := r.(*ssa.UnOp); ok && ld.Op == token.MUL {
+								if _, isBasic := ld.Type().Underlying().(*types.Basic); isBasic {
+									nRead++
+									grow(ld, 0)
+								}
+							}
+						}
+						for v := range derived {
+							refs := v.Referrers()
+							if refs == nil {
+								continue
+							}
+							for _, r := range *refs {
+								call, isCall := r.(*ssa.Call)
+								if !isCall || heldAt(call) {
+									continue
+								}
+								g := call.Common().StaticCallee()
+								if g == nil || !IsOwn(g) || len(g.Blocks) == 0 {
+									continue
+								}
+								var args []*Term
+								for _, a := range call.Common().Args {
+									args = append(args, lf.tb.of(a, 0))
+								}
+								for _, a := range la9.summary(g).Acquires {
+									path, _ := lockPath(substParams(a.Ref.T, args))
+									if path == wantPath {
+										c.Require(prop+".R9 one-critical-section", FuncKey(fn)+": "+owner+"."+fieldNameOf(st.Field(fa.Field))+" read under the lock, used by "+FuncName(g)+" under a second acquisition", p.InstrPos(call),
+											"a value read from a guarded field is used under the same acquisition of "+owner+"."+mf+", not after releasing and re-taking it (the state it described may be gone)", false, "read at "+p.InstrPos(in))
+									}
+								}
+							}
+						}
+					}
+				}
+			}
+			c.Count("guarded scalar reads followed for "+owner, nRead)
 		}
 		// R6 send/close discipline
 		checkChanDiscipline(c, prop, owner, mf)
